@@ -142,6 +142,14 @@ Fixpoint grun (drain : bool) (cap : N) (s : st) (ls : list label) : option st :=
   end.
 Definition run := grun true.
 
+(* the flusher's own labels, and how many of them a schedule contains *)
+Definition flusher_label (l : label) : Prop :=
+  match l with PollTake _ | PollEmpty | InnerTake _ | InnerSync | DrainTake _ | DrainDone => True | _ => False end.
+Definition is_flusher (l : label) : bool :=
+  match l with PollTake _ | PollEmpty | InnerTake _ | InnerSync | DrainTake _ | DrainDone => true | _ => false end.
+Fixpoint flusher_steps (ls : list label) : nat :=
+  match ls with [] => 0 | l :: r => (if is_flusher l then 1 else 0) + flusher_steps r end%nat.
+
 (* ---------- what an observer of the implementation sees ---------- *)
 
 Inductive event := ECall (e : entry) | ERet (e : entry) | EWrite (e : entry) | EFlushCall | EFlushRet (done : bool).
